@@ -186,7 +186,7 @@ func genHeavy(t *rapid.T) Case {
 func genLadder(t *rapid.T) Case {
 	var c Case
 	nx := rapid.SampledFrom([]int{30, 120, 300, 520, 520, 600, 700}).Draw(t, "nx") + rapid.IntRange(0, 40).Draw(t, "plus")
-	if gen.Chance(t, 1, 4, "huge") {
+	if gen.Chance(t, 1, 3, "huge") {
 		nx = 10001 + rapid.IntRange(0, 300).Draw(t, "hugePlus") // beyond the solver's 10 000-literal scratch buffer
 	}
 	var tail string
@@ -209,17 +209,17 @@ func genRestart(t *rapid.T) Case {
 func init() {
 	tail := "; solved with certificate generation on (channel buffered or consumed concurrently) x learned-clause limit {default, 2..12, n+1, n+8} and again with it off; Unsat: each line RUP w.r.t. formula + earlier lines and the empty clause RUP-derivable at the end, by an independent checker on literal sets; Sat: each line a consequence (truth table n<=20, else RUP or DPLL entailment), same verdict and valid models with certification on and off; non-trivial = Unsat, not decided at parse time, >=1 non-empty certificate line"
 	vf.Register(
-		vf.Sub[Case]{Name: "small", Quick: 12000, Thorough: 150000, Gen: genSmall, Check: check, Floor: 0.05,
+		vf.Sub[Case]{Name: "small", Quick: 4000, Thorough: 150000, Gen: genSmall, Check: check, Floor: 0.05,
 			Rule: "CNF n<=10 with duplicate literals, tautologies, units, empty clauses" + tail},
-		vf.Sub[Case]{Name: "hard-small", Quick: 1200, Thorough: 15000, Gen: genHard, Check: check, Floor: 0.4,
+		vf.Sub[Case]{Name: "hard-small", Quick: 500, Thorough: 15000, Gen: genHard, Check: check, Floor: 0.4,
 			Classes: map[string]float64{"cert-lines>=20": 0.2, "reduceDB>0": 0.08},
 			Rule:    "parity systems (n 14..20) and pigeonhole formulas" + tail},
-		vf.Sub[Case]{Name: "threshold-3sat", Quick: 300, Thorough: 3000, Gen: genHeavy, Check: check, Floor: 0.25,
+		vf.Sub[Case]{Name: "threshold-3sat", Quick: 120, Thorough: 3000, Gen: genHeavy, Check: check, Floor: 0.25,
 			Classes: map[string]float64{"cert-lines>=20": 0.4},
 			Rule:    "uniform 3-SAT n in 30..100 (thorough ..150), ratio 4.0..4.6" + tail},
-		vf.Sub[Case]{Name: "long-learned-clauses", Quick: 40, Thorough: 100, Gen: genLadder, Check: check, Floor: 0.2,
+		vf.Sub[Case]{Name: "long-learned-clauses", Quick: 30, Thorough: 100, Gen: genLadder, Check: check, Floor: 0.2,
 			Rule: "'ladder' formulas: one clause over 30..1100 (sometimes 10 001+) variables, split on a helper, plus an implication chain x_k -> x_k+1 (each split on a helper) with or without 'not x_n', or a single gadget; variables numbered helpers-first/last and ascending/descending: the learned clauses hold hundreds to thousands of literals; the truth (unsat / sat) is known by construction and checked through the model / the independent RUP replay" + tail},
-		vf.Sub[Case]{Name: "restart-prone-3sat", Quick: 120, Thorough: 1200, Gen: genRestart, Check: check, Floor: 0.25,
+		vf.Sub[Case]{Name: "restart-prone-3sat", Quick: 50, Thorough: 1200, Gen: genRestart, Check: check, Floor: 0.25,
 			Classes: map[string]float64{"restart>0": 0.12},
 			Rule:    "uniform 3-SAT n in 100..150, ratio 4.0..4.6: hundreds to thousands of conflicts, so that restarts (and clause-database reductions with the lowered limit) happen before the answer" + tail},
 	)
